@@ -22,6 +22,8 @@ def mode_sets(gapless):
     out = [("auto", catalogue.full_config(gapless, {})), ("table", catalogue.full_config(gapless, T)),
            ("match-nab", catalogue.full_config(gapless, M)),
            ("inline", catalogue.full_config(gapless, {"iter": "table_inline", "as_str": "table", "from_str": "match"}, drop=("range",)))]
+    # the run table without offsets (nothing requests them)
+    out.append(("plain", Config(["next", "next_back", "try_from", "TryFrom", "MIN", "MAX", "into"])))
     if gapless:
         out.append(("range", catalogue.full_config(True, {"iter": "range", "as_str": "table", "from_str": "table"})))
     return out
